@@ -14,16 +14,16 @@ pub fn sender(name: &str) -> Addr {
 pub fn seeded_app() -> RawApp {
     RawApp::new(|router, _api, storage| {
         for s in ["alice", "bob"] {
-            router.bank.init_balance(storage, &sender(s), coins(1_000, "atom")).unwrap();
+            router.bank.init_balance(storage, &sender(s), vec![sylvia::cw_std::coin(1_000, "atom"), sylvia::cw_std::coin(1_000, "zeta")]).unwrap();
         }
     })
 }
 
 pub fn funds(n: u64) -> Vec<Coin> {
-    if n == 0 {
-        vec![]
-    } else {
-        coins(n as u128, "atom")
+    match n {
+        0 => vec![],
+        7 => vec![sylvia::cw_std::coin(4, "zeta"), sylvia::cw_std::coin(3, "atom")],      // two coins, not in alphabetical order
+        n => coins(n as u128, "atom"),
     }
 }
 
@@ -33,7 +33,7 @@ fn bal(app: &RawApp, a: &Addr) -> String {
 
 /// What a chain looks like from the outside, as far as the contract under test is concerned.
 pub fn view(app: &RawApp, contract: Option<&Addr>) -> Value {
-    let mut v = json!({"exists": false, "code": "", "label": "", "admin": "", "mark": "", "count": "", "bal": "", "alice": bal(app, &sender("alice")), "bob": bal(app, &sender("bob"))});
+    let mut v = json!({"exists": false, "code": "", "label": "", "admin": "", "mark": "", "count": "", "bal": "", "funds": "", "alice": bal(app, &sender("alice")), "bob": bal(app, &sender("bob"))});
     if let Some(c) = contract {
         let dump = app.dump_wasm_raw(c);
         let get = |k: &[u8]| dump.iter().find(|(kk, _)| kk.as_slice() == k).map(|(_, v)| String::from_utf8_lossy(v).to_string()).unwrap_or_default();
@@ -48,6 +48,7 @@ pub fn view(app: &RawApp, contract: Option<&Addr>) -> Value {
         v["mark"] = json!(get(b"verif_mark"));
         v["count"] = json!(get(b"verif_count"));
         v["bal"] = json!(bal(app, c));
+        v["funds"] = json!(get(b"verif_funds"));
         v["keys"] = json!(dump.len());
     }
     v
